@@ -25,7 +25,7 @@ var c08Alphabet = []string{"2020-01-01", "\n", "\r\n", " ", "    ", "\t", "1h", 
 func c08Families(tier fw.Tier) []docFamily {
 	return cachedFamilies("c08/"+string(tier), func() []docFamily {
 		var fs []docFamily
-		for _, f := range c01Families(tier) {
+		for _, f := range sharedFamilies(tier) {
 			switch f.name {
 			case "FB", "FA3", "FD1":
 				fs = append(fs, f)
